@@ -292,7 +292,103 @@ def run(prog: Program, col: Collector, tier: str, refs: Optional[Refs] = None, c
     from . import c04, c15
     c04._rename_clash(prog, col, refs, cat, c04._subs_collections(prog, refs, cat))
     c15._logsumexp_axis(prog, col, refs, cat, "R11.12")
+    _partial_delegation(prog, col, refs, cat, adj_regs, reg)
     return col
+
+
+def _partial_delegation(prog: Program, col: Collector, refs: Refs, cat: Catalogue, adj_regs, reg: str):
+    """R11.13.  An adjoint rule may hand some of its operands to another adjoint rule (or to itself).  The operands handed over are
+    factors of a product whose other factors stay behind, so the incoming adjoint passed along must be built from the factors that
+    stay behind (d(x*y*z)/dy carries x); passing the rule's own incoming adjoint is right only where the rule has tested that its
+    product op plays the additive role.  Decided on local dataflow: the parts an operand collection is split into, which parts each
+    delegation receives, and which parts its incoming-adjoint argument mentions."""
+    from .common import regions_where
+    col.rule("R11.13", "a rule that delegates the adjoint of some operands passes an incoming adjoint built from the operands it keeps", floor=2)
+    rule_funcs = {r.target.fq.replace("::", "."): r.target for r in adj_regs if r.target is not None and not isinstance(r.target.node, ast.Lambda)}
+    n_sites = 0
+    for f in rule_funcs.values():
+        params = f.positional
+        if len(params) < 4:
+            continue
+        sum_p, prod_p, out_adj = params[0], params[1], params[2]
+        # single-definition locals (tuple destructuring is split element-wise where the shapes agree)
+        env: Dict[str, ast.AST] = {}
+        multi = set()
+        for st in walk_no_nested(f.node):
+            if not (isinstance(st, ast.Assign) and len(st.targets) == 1):
+                continue
+            t, v = st.targets[0], st.value
+            pairs = []
+            if isinstance(t, ast.Name):
+                pairs = [(t.id, v)]
+            elif isinstance(t, (ast.Tuple, ast.List)):
+                if isinstance(v, (ast.Tuple, ast.List)) and len(v.elts) == len(t.elts) and not any(isinstance(e, ast.Starred) for e in t.elts):
+                    pairs = [(a.id, b) for a, b in zip(t.elts, v.elts) if isinstance(a, ast.Name)]
+                else:
+                    for k, a in enumerate(t.elts):
+                        a_ = a.value if isinstance(a, ast.Starred) else a
+                        if isinstance(a_, ast.Name):  # part k of the right-hand side
+                            pairs.append((a_.id, ast.Subscript(value=v, slice=ast.Constant(value=k), ctx=ast.Load())))
+                        else:  # nested pattern: every name in it is derived from the right-hand side
+                            pairs += [(x.id, v) for x in ast.walk(a_) if isinstance(x, ast.Name)]
+            for nm, val in pairs:
+                if nm in env or nm in params:
+                    multi.add(nm)
+                env[nm] = val
+        for nm in multi:
+            env.pop(nm, None)
+
+        def mentions(expr, depth=0):
+            out = set()
+            for n in ast.walk(expr):
+                if isinstance(n, ast.Name) and isinstance(n.ctx, ast.Load):
+                    out.add(n.id)
+                    if n.id in env and depth < 8:
+                        out |= mentions(env[n.id], depth + 1)
+            return out
+
+        # parts: locals whose definition is a subscript of an operand parameter (an element or a slice of the operand tuple)
+        operand_params = [q for q in params[3:]]
+        parts: Dict[str, str] = {}
+        for nm, val in env.items():
+            if isinstance(val, ast.Subscript) and isinstance(val.value, ast.Name) and val.value.id in operand_params:
+                parts[nm] = val.value.id
+        additive = []
+        for node, _pl, stmts in regions_where(f.module, f.node, lambda t: True if (isinstance(t, ast.Compare) and len(t.ops) == 1 and isinstance(t.ops[0], ast.Is)
+                                                                                     and sum_p in (norm(t.left), norm(t.comparators[0]))
+                                                                                     and ({norm(t.left), norm(t.comparators[0])} - {sum_p}) <= set(params[3:])) else None):
+            additive += [id(y) for st in stmts for y in ast.walk(st)]
+        for c in [n for n in walk_no_nested(f.node) if isinstance(n, ast.Call)]:
+            tgt = refs.resolve(c.func)
+            if tgt == reg:
+                k = 3
+            elif tgt in rule_funcs:
+                k = 2
+            else:
+                continue
+            if len(c.args) <= k or any(isinstance(a, ast.Starred) for a in c.args[:k + 1]):
+                continue
+            n_sites += 1
+            adj_arg, rest = c.args[k], [a for a in c.args[k + 1:]]
+            got = set()
+            for a in rest:
+                got |= mentions(a.value if isinstance(a, ast.Starred) else a)
+            construct = f"{f.fq}::{norm(c)[:70]}"
+            whole = {q for q in operand_params if q in got and not any(parts[pn] == q and pn in got for pn in parts)}
+            handed = {pn for pn in parts if pn in got}
+            kept = {pn for pn in parts if pn not in got and parts[pn] not in whole}
+            if not handed or not kept:
+                col.ok(construct, "the delegation receives all operands of the rule" if not handed else "every part of the operands is handed over", f.loc(c), nontrivial=False)
+                continue
+            adj_m = mentions(adj_arg)
+            missing = sorted(pn for pn in kept if pn not in adj_m)
+            ok = not missing or id(c) in additive
+            col.check(ok, construct, f"the incoming adjoint handed over mentions the operands kept ({sorted(kept)})" if not missing else f"additive branch (the term's op is {sum_p})",
+                      f"the adjoint of {sorted(handed)} is delegated with incoming adjoint `{norm(adj_arg)[:50]}`, which is not built from the operand(s) {missing} that stay behind, and "
+                      f"there is no test that the term's op is `{sum_p}` (the additive role): for a product the adjoint of every operand carries all the other factors", f.loc(c))
+    col.cur.analysed["delegation_sites"] = n_sites
+    if n_sites < 2:
+        raise AnalysisError(f"R11.13: only {n_sites} delegation site(s) between adjoint rules found (2 confirmed by hand: adjoint_contract_unary -> adjoint_reduce, adjoint_contract_generic -> adjoint_ops)")
 
 
 def _product_rule(col: Collector, f: Func, refs: Refs):
